@@ -212,8 +212,21 @@ def breaking(draw, m, only=None, type_names=None):
             cands = [i for i in _named_members(t) if t["members"][i]["type"][0] == "a"]
             i = _pick(draw, cands)
             mm = t["members"][i]
-            mm["type"] = ["a", mm["type"][1], mm["type"][2] + draw(st.integers(1, 3))]
+            how = draw(st.integers(0, 3))
+            ty = mm["type"]
+            if how == 1:
+                # one more (trailing) dimension of at least 2: T[n] -> T[n][k]
+                mm["type"] = ["a", ["a", ty[1], draw(st.integers(2, 3))], ty[2]] if ty[1][0] != "a" else \
+                    ["a", ["a", ty[1][1], ty[1][2] + 1], ty[2]]
+            elif how == 2 and ty[1][0] == "a" and ty[1][2] >= 2:
+                # the trailing dimension goes away, the leading one stays: T[n][k] -> T[n]
+                mm["type"] = ["a", ty[1][1], ty[2]]
+            elif how == 3 and ty[1][0] == "a":
+                mm["type"] = ["a", ["a", ty[1][1], ty[1][2] + draw(st.integers(1, 2))], ty[2]]
+            else:
+                mm["type"] = ["a", ty[1], ty[2] + draw(st.integers(1, 3))]
             info["member"] = mm["name"]
+            info["how"] = ["outer_bound", "add_dimension", "drop_dimension", "inner_bound"][how]
         info["affected"] = M.affected_by_type(m, t["name"])
     elif kind in ("enumerator_value", "enum_size"):
         enums = _reachable_of_kind(m2, ("enum",))
